@@ -109,11 +109,23 @@ class _MissingDict(dict):
         return 1
 
 
-def _wrap(arg, how):
+def _wrap(arg, how, sf=None, x=None):
     """The caller passes its table as a dict *subclass*: still a dict, equal to the plain one."""
     if how is None or type(arg) is not dict:
         return arg
     import collections
+    if how == "reentrant":
+        # an object given to the library that calls back into the library while the update is
+        # in progress (once): a translation call *inside* a configuration call
+        class Reentrant(dict):
+            fired = False
+
+            def items(self):
+                if not Reentrant.fired:
+                    Reentrant.fired = True
+                    outcome(sf.decoder, x)
+                return dict.items(self)
+        return Reentrant(arg)
     if how == "defaultdict":
         return collections.defaultdict(lambda: 2, arg)
     if how == "OrderedDict":
@@ -200,7 +212,7 @@ def execute(sf, ops, passive):
                 o = outcome(sf.set_semantic_constraints, op["name"])
             rec["r"] = o[:3]
         elif k == "set_table":
-            arg = _wrap(parse_arg(op["lit"]), op.get("wrap"))
+            arg = _wrap(parse_arg(op["lit"]), op.get("wrap"), sf, op.get("x"))
             H[idx] = arg
             o = outcome(sf.set_semantic_constraints, arg)
             rec["r"] = o[:3]
@@ -365,6 +377,8 @@ class Verifier:
             r = rec["r"]
             if k in ("set_preset", "set_table"):
                 fault = k == "set_table" and "why" in op
+                if op.get("wrap"):
+                    probe("fault_caller_dict_subclass:" + op["wrap"])
                 if r[0] == "ok":
                     arg = (op["name"] or "default") if k == "set_preset" else parse_arg(op["lit"])
                     if from_import and k == "set_preset":
